@@ -66,8 +66,8 @@ func goLazy(cs lazyCase) (calls []string, delivered []byte, openErr string) {
 		n, err := rd.Read(p)
 		delivered = append(delivered, p[:n]...)
 		calls = append(calls, fmt.Sprintf("%d:%s", n, lazyStatus(err)))
-		if err != nil {
-			break
+		if err != nil && err != io.EOF {
+			break // after io.EOF the schedule goes on: end of stream must be stable
 		}
 	}
 	return calls, delivered, ""
@@ -97,7 +97,7 @@ func lazyTie(r *Result, dp *DriverPool, rng *rand.Rand, nbase int) {
 					budget -= sz
 				}
 			}
-			sizes = append(sizes, 7, 7) // past the end
+			sizes = append(sizes, 7, 0, 7) // past the end: end of stream must be stable
 			cases = append(cases, lazyCase{Op: "lazy-read", Name: name, Stream: hxe(stream), DictCap: caps[rng.Intn(len(caps))], Sizes: sizes})
 		}
 	}
@@ -263,7 +263,7 @@ func goLazy2(cs lazyCase) (calls []string, delivered []byte) {
 		n, err := rd.Read(p)
 		delivered = append(delivered, p[:n]...)
 		calls = append(calls, fmt.Sprintf("%d:%s", n, lazy2Status(err)))
-		if err != nil {
+		if err != nil && err != io.EOF {
 			break
 		}
 	}
@@ -294,7 +294,7 @@ func lazy2Tie(r *Result, dp *DriverPool, rng *rand.Rand, nbase int) error {
 					budget -= sz
 				}
 			}
-			sizes = append(sizes, 7, 7)
+			sizes = append(sizes, 7, 0, 7)
 			cases = append(cases, lazyCase{Op: "lazy2-read", Name: name, Stream: hxe(stream), DictCap: caps[rng.Intn(len(caps))], Sizes: sizes})
 		}
 	}
@@ -461,7 +461,7 @@ func goLazyXz(cs lazyXzCase) (calls []string, delivered []byte, openSt string) {
 		n, err := rd.Read(p)
 		delivered = append(delivered, p[:n]...)
 		calls = append(calls, fmt.Sprintf("%d:%s", n, lazyXzStatus(err)))
-		if err != nil {
+		if err != nil && err != io.EOF {
 			break
 		}
 	}
@@ -500,7 +500,7 @@ func lazyXzTie(r *Result, dp *DriverPool, rng *rand.Rand, nbase int) error {
 					budget -= sz
 				}
 			}
-			sizes = append(sizes, 7, 7)
+			sizes = append(sizes, 7, 0, 7)
 			cases = append(cases, lazyXzCase{Op: "lazyxz-read", Name: name, Stream: hxe(stream), DictCap: []int{0, 4096, 1 << 16}[rng.Intn(3)], Single: rng.Intn(4) == 0, Sizes: sizes})
 		}
 	}
